@@ -102,6 +102,12 @@ pub fn vx_async_block<T>() -> VxFuture<T> { unimplemented!() }
 pub assume_specification<T: std::default::Default> [std::mem::take] (x: &mut T) -> (r: T)
     ensures r == *old(x), call_ensures(T::default, (), *final(x));
 
+// std specs that the unchanged code does not need; they only keep "swallowing" edits of the source decidable (exit 1, not 2)
+pub assume_specification<T, E> [std::result::Result::<T, E>::unwrap_or] (r: std::result::Result<T, E>, default: T) -> (o: T)
+    ensures o == (match r { Ok(v) => v, Err(_) => default });
+pub assume_specification<T: std::default::Default, E> [std::result::Result::<T, E>::unwrap_or_default] (r: std::result::Result<T, E>) -> (o: T)
+    ensures match r { Ok(v) => o == v, Err(_) => call_ensures(T::default, (), o) };
+
 // ---- error types: only Err-ness matters; the conversions used by `?` are what thiserror's #[from] generates ------------
 #[verifier::external_body]
 pub struct DataProcessingError { _p: () }
@@ -137,6 +143,27 @@ pub proof fn lemma_drained_all(before: Multiset<TaskRes>, now: Multiset<TaskRes>
     }
 }
 
+// ---- ghost event markers ----------------------------------------------------------------------------------------------
+// Uninterpreted predicates that occur nowhere but here: the two introduction lemmas are the only way to obtain them, and each
+// demands the drained-and-all-Ok fact at the place it is called.  (They are conservative: reading both markers as `true`
+// satisfies the lemmas, so they add no logical strength; they only carry "this point was passed" into contracts.)
+impl SessionShardInterface {
+    /// the session's xorb upload task set has been taken, fully drained, and every drained result was Ok(Ok(_))
+    pub uninterp spec fn vx_xorbs_drained(&self) -> bool;
+    /// this interface's shard upload task set has been fully drained and every drained result was Ok(Ok(_))
+    pub uninterp spec fn vx_shards_stored(&self) -> bool;
+}
+#[verifier::external_body]
+proof fn vx_mark_xorbs_drained(si: &SessionShardInterface, taken: Multiset<TaskRes>, now: Multiset<TaskRes>)
+    requires /*@C16*/ now.len() == 0, /*@C16*/ drained_ok(taken, now),
+    ensures si.vx_xorbs_drained(), all_ok(taken),
+{}
+#[verifier::external_body]
+proof fn vx_mark_shards_stored(si: &SessionShardInterface, spawned: Multiset<TaskRes>, now: Multiset<TaskRes>)
+    requires /*@C16*/ now.len() == 0, /*@C16*/ drained_ok(spawned, now),
+    ensures si.vx_shards_stored(), all_ok(spawned),
+{}
+
 // ---- other dependency stubs (R11), none has a contract unless stated -----------------------------------------------
 pub struct VxClient { _p: () }
 pub struct VxProgressUpdater { _p: () }
@@ -157,7 +184,7 @@ impl VxLockInv for JoinSet<Result<()>> { open spec fn lock_inv(&self) -> bool { 
 
 // byte counters: ASSUMED to stay below 2^62 (nothing to do with C16; keeps `shard + xorb` inside usize)
 pub open spec fn counter_bound() -> usize { 0x4000_0000_0000_0000 }
-impl VxLockInv for DeduplicationMetrics { open spec fn lock_inv(&self) -> bool { self.xorb_bytes_uploaded <= counter_bound() } }
+impl VxLockInv for DeduplicationMetrics { closed spec fn lock_inv(&self) -> bool { self.xorb_bytes_uploaded <= counter_bound() } }
 impl Default for DeduplicationMetrics { #[verifier::external_body] fn default() -> Self { unimplemented!() } }
 pub enum Ordering { Relaxed }
 #[verifier::external_body]
@@ -201,17 +228,35 @@ impl SessionShardInterface {
 
 //@ extract data/src/shard_interface.rs in `impl SessionShardInterface` fn upload_and_register_session_shards
 //@ ret ret
-//@ rules R16
+//@ rules R16 R17
+//@ contract
+        requires
+            // "This must be called after all xorbs have completed their upload" (doc comment of the function)
+            /*@C16*/ self.vx_xorbs_drained(),
+        ensures
+            /*@C16*/ ret is Ok ==> self.vx_shards_stored(),
+            ret matches Ok(n) ==> n <= counter_bound(),   // frame for the caller's byte sum (assumed counter bound), not C16
+//@ before `for si in`
+        let ghost n_shards = shard_list@.len() as int;
+        let ghost mut n_sp: int = 0;
 //@ loop 1
-            invariant true,
+            invariant
+                n_shards == shard_list@.len(),
+                /*@C16*/ n_sp == vx_it.index@,          // one task spawned per shard taken from the list so far
+                /*@C16*/ shard_uploads@.len() == n_sp,
+//@ after `shard_uploads.spawn(vx_async_block());`
+            proof { n_sp = n_sp + 1; }
 //@ before `while let Some(jh)`
         let ghost pend0 = shard_uploads@;
+        // every consolidated shard has its upload task in the set that is joined below
+        assert(/*@C16*/ pend0.len() == n_shards);
 //@ loop 2
             invariant /*@C16*/ drained_ok(pend0, shard_uploads@),
             ensures /*@C16*/ shard_uploads@.len() == 0,
             decreases shard_uploads@.len(),
 //@ before `Ok(shard_bytes_uploaded.load`
-        proof { lemma_drained_all(pend0, shard_uploads@); }
+        // (c) Ok is returned only with the own task set drained and every result Ok(Ok(_))
+        proof { /*@C16*/ vx_mark_shards_stored(self, pend0, shard_uploads@); lemma_drained_all(pend0, shard_uploads@); }
         assert(/*@C16*/ shard_uploads@.len() == 0 && all_ok(pend0));
 //@ end
 }
@@ -239,6 +284,9 @@ impl FileUploadSession {
 //@ subst `assert((Arc::strong_count(&self)) == (1));` => `` :: debug-only assertion about the Arc reference count: no ghost state for Arc counts in the technique, not part of C16; dropped and listed as not covered
 //@ subst `prometheus_metrics::FILTER_CAS_BYTES_PRODUCED.inc_by` => `prometheus_metrics::FILTER_CAS_BYTES_PRODUCED().inc_by` :: R6/R11 global prometheus counter (lazy_static) -> stub accessor
 //@ subst `prometheus_metrics::FILTER_BYTES_CLEANED.inc_by` => `prometheus_metrics::FILTER_BYTES_CLEANED().inc_by` :: R6/R11 global prometheus counter (lazy_static) -> stub accessor
+//@ contract
+        ensures
+            /*@C16*/ ret is Ok ==> self.shard_interface.vx_xorbs_drained() && self.shard_interface.vx_shards_stored(),
 //@ body-start
         // Until the session's task set has been taken out of the mutex its contents are unknown: `upload_tasks` names an
         // arbitrary set here, shadowed by the real one at the `take`.
@@ -254,7 +302,7 @@ impl FileUploadSession {
         // (b) shards are handed to the store only with the xorb task set fully drained and every drained result Ok(Ok(_))
         assert(/*@C16*/ upload_tasks@.len() == 0);
         assert(/*@C16*/ drained_ok(pend0, upload_tasks@));
-        proof { lemma_drained_all(pend0, upload_tasks@); }
+        proof { /*@C16*/ vx_mark_xorbs_drained(&self.shard_interface, pend0, upload_tasks@); lemma_drained_all(pend0, upload_tasks@); }
         assert(/*@C16*/ all_ok(pend0));
 //@ before `Ok((metrics, all_file_info))`
         // (a) Ok is returned only if every result removed from the set was Ok(Ok(_)), and nothing is left in it
